@@ -39,6 +39,10 @@ def parseOp (j : Json) : Option Op :=
 def parseOpX (j : Json) : Option OpX :=
   match j with
   | .arr #[Json.str "raise"] => some .raise
+  | .arr #[Json.str "put", i, s, c, p] =>
+    match natsOf (Json.arr #[i, s, c, p]) with
+    | some [i, s, c, p] => some (.put i s (c, p))
+    | _ => none
   | _ => (parseOp j).map .base
 
 def outName : Out → String
